@@ -207,14 +207,15 @@ theorem protocol_slow_route (idna : Idna) (L : Nat) (input : Bytes) (hid : ∀ d
     simp [AdaVerif.Model.UrlRec.toL, UR.recOf]
 
 open AdaVerif.Model.PatternCanon AdaVerif.Lemmas in
-/-- **`canonicalize_protocol`**: a special scheme's name is returned as it is, a value of letters, digits, '+', '-', '.' behind
-    a letter is returned lower-cased (only when a capital occurs), and both are the scheme of the URL the Standard parses,
-    `value ++ "://dummy.test"` (`protocolUrl_scheme`: for every such value, whatever IDNA answers); every other value
-    takes the slow route (`protocol_slow_route`).  The single trailing ':' dropped first is "process protocol for init"'s -/
-theorem canonicalize_protocol_is_standard_partial (idna : Idna) (L : Nat) (v : Bytes) (hne : v ≠ [])
-    (hslow : protocolSlow idna L (PC.protocolInput v) = (Spec.Pattern.protocolUrl idna (PC.protocolInput v)).map (·.scheme)) :
-    canonicalizeProtocol idna L v = (Spec.Pattern.protocolUrl idna (PC.protocolInput v)).map (·.scheme) :=
-  PC.protocol_eq idna L v hne hslow
+/-- **`canonicalize_protocol`** is "canonicalize a protocol": a special scheme's name is returned as it is, a value of
+    letters, digits, '+', '-', '.' behind a letter is returned lower-cased (only when a capital occurs), and both are the scheme
+    of the URL the Standard parses, `value ++ "://dummy.test"` (`protocolUrl_scheme`: for every such value, whatever IDNA
+    answers); every other value takes the slow route (`protocol_slow_route`).  (Until the fix recorded for C15 the function
+    also dropped a trailing ':' - "process protocol for init"'s step - and so accepted the part "http:".) -/
+theorem canonicalize_protocol_is_standard_partial (idna : Idna) (L : Nat) (v : Bytes)
+    (hslow : protocolSlow idna L v = (Spec.Pattern.protocolUrl idna v).map (·.scheme)) :
+    canonicalizeProtocol idna L v = Spec.Pattern.canonProtocol idna v :=
+  PC.protocol_eq idna L v hslow
 
 open AdaVerif.Model.PatternCanon AdaVerif.Lemmas in
 /-- the helpers around the callbacks: `escape_pattern_string`, `escape_regexp_string` (over the regenerated tables),
@@ -247,7 +248,10 @@ example : AdaVerif.Model.PatternCanon.canonicalizeHostname C10.asciiIdna 100 (of
     AdaVerif.Model.PatternCanon.canonicalizeHostname C10.asciiIdna 0 (ofStr "example.com") = some (ofStr "example.com") ∧
     AdaVerif.Model.PatternCanon.canonicalizeHostname C10.asciiIdna 100 (ofStr "0x7f.1") = some (ofStr "127.0.0.1") ∧
     AdaVerif.Model.PatternCanon.canonicalizeHostname C10.asciiIdna 100 (ofStr "a b") = none := by decide +kernel
-example : AdaVerif.Model.PatternCanon.canonicalizeProtocol C10.asciiIdna 100 (ofStr "HTTPS:") = some (ofStr "https") ∧
+example : AdaVerif.Model.PatternCanon.canonicalizeProtocol C10.asciiIdna 100 (ofStr "HTTPS") = some (ofStr "https") ∧
+    AdaVerif.Model.PatternCanon.canonicalizeProtocol C10.asciiIdna 100 (ofStr "http:") = none ∧
+    Spec.Pattern.canonProtocol C10.asciiIdna (ofStr "http:") = none ∧
+    AdaVerif.Model.PatternCanon.canonicalizeProtocol C10.asciiIdna 100 (ofStr "foo:") = some (ofStr "foo") ∧
     AdaVerif.Model.PatternCanon.canonicalizeProtocol C10.asciiIdna 100 (ofStr "web+X") = some (ofStr "web+x") ∧
     AdaVerif.Model.PatternCanon.canonicalizeProtocol C10.asciiIdna 100 (ofStr " http") = some (ofStr "http") ∧
     AdaVerif.Model.PatternCanon.canonicalizeProtocol C10.asciiIdna 100 (ofStr "1a") = none ∧
